@@ -14,22 +14,33 @@ import stackscope
 
 
 class World:
+    made = 0
+
     def __init__(self, parents):
         self.main = greenlet.getcurrent()
         self.parents = parents
         self.g = {}
         self.result = None
+        World.made += 1
         # create in an order in which every parent exists
         todo = dict(parents)
         while todo:
             for gid, p in list(todo.items()):
                 if p == "main" or p in self.g:
-                    self.g[gid] = greenlet.greenlet(functools.partial(entry, self, gid), parent=self.main if p == "main" else self.g[p])
+                    parent = self.main if p == "main" else self.g[p]
+                    if (len(self.g) + World.made) % 2:
+                        # the subclassing style: run() is a method of the class, not an attribute of the instance
+                        self.g[gid] = Sub(parent=parent)
+                        self.g[gid].w, self.g[gid].gid = self, gid
+                    else:
+                        self.g[gid] = greenlet.greenlet(functools.partial(entry, self, gid), parent=parent)
                     del todo[gid]
 
 
-def entry(w, gid):
+def entry(w, gid=None):
     """the greenlet's entry function IS the depth-0 interpreter (so that extract can be called from call depth 1)"""
+    if gid is None:
+        w, gid = w.w, w.gid          # called as Sub.run
     while True:
         cmd = w.main.switch(("ready", gid, 0))
         if cmd[0] == "call":
@@ -43,6 +54,10 @@ def entry(w, gid):
             w.result = (st, [str(x.message)[:100] for x in wl])
         elif cmd[0] == "finished":
             continue
+
+
+class Sub(greenlet.greenlet):
+    run = entry
 
 
 def loop(w, gid, depth):
@@ -128,10 +143,10 @@ def run_behaviour(beh):
     return bad, f8, nobs
 
 
-def other_thread_cases():
+def other_thread_cases(subclass=False):
     """a greenlet running in another thread: an error, not some other stack; a suspended one: its own frames"""
     bad = []
-    box = {}
+    box = {"subclass": subclass}
     ready, done = threading.Event(), threading.Event()
 
     def t2():
@@ -145,7 +160,10 @@ def other_thread_cases():
         susp = greenlet.greenlet(child)
         susp.switch()
         box["suspended"] = susp
-        run = greenlet.greenlet(blocked)
+        class Blocked(greenlet.greenlet):
+            def run(self):
+                blocked()
+        run = Blocked() if box.get("subclass") else greenlet.greenlet(blocked)
         run.switch()
     th = threading.Thread(target=t2, daemon=True)
     th.start()
@@ -270,7 +288,7 @@ def main():
         out["observations"] += nobs
         out["mismatches"] += bad
         out["f8"] += f8
-    out["other_thread"] = other_thread_cases()
+    out["other_thread"] = other_thread_cases() + ["(subclass with a run method) " + b for b in other_thread_cases(True)]
     out["greenback_n"], out["greenback"] = greenback_cases(data["bridges"])
     json.dump(out, open(sys.argv[2], "w"))
 
